@@ -92,7 +92,10 @@ type CpSpec struct {
 	Signer     int        `json:"signer"` // -1 own key, i>=0 key of log i, -2 stranger, -3 no log line
 	SignerName string     `json:"signer_name,omitempty"`
 	Ext        []string   `json:"ext,omitempty"`
-	Extra      []ExtraSig `json:"extra,omitempty"`
+	// PadTo > 0: one more extension line is added so that the whole submitted note is this
+	// many bytes long (exactly for Ed25519 log keys; ECDSA signatures vary by a byte or two)
+	PadTo int        `json:"pad_to,omitempty"`
+	Extra []ExtraSig `json:"extra,omitempty"`
 	Mut        *Mutation  `json:"mut,omitempty"`
 }
 
@@ -112,6 +115,9 @@ type Op struct {
 	Kind  string    `json:"kind"` // update | plant (write Cp, cosigned by the harness with the witness keys TsAgo seconds ago, straight into storage)
 	TsAgo int64     `json:"ts_ago,omitempty"`
 	Log   int       `json:"log"`  // -1: an ID no log has
+	// IDAlt (with Log -1): the ID is a different spelling of a configured log's ID (other
+	// letter case, padding, truncation) - still an ID no log has
+	IDAlt *IDAlt `json:"id_alt,omitempty"`
 	Cp    CpSpec    `json:"cp"`
 	Old   SizeSpec  `json:"old"`
 	Proof ProofSpec `json:"proof"`
@@ -236,6 +242,58 @@ func NewPersistence(kind string) (persistence.LogStatePersistence, func()) {
 
 // staleEpoch (2023-11-14) is "some time ago" for stale witness cosignatures.
 const staleEpoch = int64(1700000000)
+
+// IDAlt names an unconfigured spelling of a configured ID.
+type IDAlt struct {
+	Base int `json:"base"`
+	Kind int `json:"kind"` // 0 upper case, 1 one letter upper-cased, 2 trailing space, 3 0x prefix, 4 last digit dropped, 5 digit appended
+}
+
+func altID(id string, kind int) string {
+	switch kind % 6 {
+	case 0:
+		return strings.ToUpper(id)
+	case 1:
+		b := []byte(id)
+		for i := range b {
+			if b[i] >= 'a' && b[i] <= 'f' {
+				b[i] -= 32
+				break
+			}
+		}
+		return string(b)
+	case 2:
+		return id + " "
+	case 3:
+		return "0x" + id
+	case 4:
+		return id[:len(id)-1]
+	default:
+		return id + "0"
+	}
+}
+
+// OpLogID is the ID an op's request is addressed to.
+func (e *Env) OpLogID(op Op) string {
+	if op.Log >= 0 && op.Log < len(e.LogIDs) {
+		return e.LogIDs[op.Log]
+	}
+	if op.IDAlt != nil && op.IDAlt.Base >= 0 && op.IDAlt.Base < len(e.LogIDs) {
+		if id := altID(e.LogIDs[op.IDAlt.Base], op.IDAlt.Kind); !e.isLogID(id) {
+			return id
+		}
+	}
+	return UnknownLogID
+}
+
+func (e *Env) isLogID(id string) bool {
+	for _, l := range e.LogIDs {
+		if l == id {
+			return true
+		}
+	}
+	return false
+}
 
 // UnknownLogID is an ID that no generated configuration contains.
 const UnknownLogID = "00000000000000000000000000000000000000000000000000000000deadbeef"
@@ -540,6 +598,11 @@ func (e *Env) TakeSnapshot(t Target) Snapshot {
 	s.Logs = append([]string{}, logs...)
 	sort.Strings(s.Logs)
 	ids := append(append([]string{}, e.LogIDs...), UnknownLogID)
+	for _, op := range e.Case.Ops {
+		if op.Log < 0 && op.IDAlt != nil {
+			ids = append(ids, e.OpLogID(op))
+		}
+	}
 	for _, id := range ids {
 		b, err := t.GetCheckpoint(id)
 		if err != nil {
@@ -595,12 +658,23 @@ func (e *Env) realLimit() uint64 {
 
 // Resolve turns op into concrete request bytes given what the named log holds.
 func (e *Env) Resolve(idx int, op Op, held Held) Req {
+	if op.Cp.PadTo > 0 && op.Cp.Replay == 0 {
+		probe := op
+		probe.Cp.PadTo = 0
+		r0 := e.Resolve(idx, probe, held)
+		d := op.Cp.PadTo - len(r0.Cp)
+		if d < 2 {
+			return r0
+		}
+		probe.Cp.Ext = append(append([]string{}, op.Cp.Ext...), strings.Repeat("p", d-1))
+		return e.Resolve(idx, probe, held)
+	}
 	r := Req{LogIdx: op.Log}
 	if op.Log >= 0 && op.Log < len(e.LogIDs) {
 		r.LogID = e.LogIDs[op.Log]
 	} else {
 		r.LogIdx = -1
-		r.LogID = UnknownLogID
+		r.LogID = e.OpLogID(op)
 	}
 	var cur uint64
 	if held.Present && held.ParseOK {
@@ -797,7 +871,8 @@ func (e *Env) Resolve(idx int, op Op, held Held) Req {
 			}
 		}
 		nsigs := len(all)
-		r.Plain = r.Authentic && !r.Mutated && len(root) == 32 && nsigs <= 90
+		// notes close to the note format's 1 MB limit cannot be cosigned and stay readable: outside every claim
+		r.Plain = r.Authentic && !r.Mutated && len(root) == 32 && nsigs <= 90 && len(r.Cp) < 990000
 	}
 	for len(e.sent) <= idx {
 		e.sent = append(e.sent, nil)
@@ -1134,10 +1209,7 @@ func (e *Env) Exec(t Target, o RunOpts) ([]*Step, error) {
 	var steps []*Step
 	for i, op := range e.Case.Ops {
 		st := &Step{Index: i, Op: op}
-		id := UnknownLogID
-		if op.Log >= 0 && op.Log < len(e.LogIDs) {
-			id = e.LogIDs[op.Log]
-		}
+		id := e.OpLogID(op)
 		if !o.NoSnapshots {
 			st.Pre = e.TakeSnapshot(t)
 			if b, ok := st.Pre.Cps[id]; ok {
